@@ -21,6 +21,24 @@ pub fn cases(tier: Tier) -> u64 {
 
 pub fn run_case(_env: &Env, ctx: &mut Ctx, idx: u64) {
     let mut rng = Rng::derive(ctx.seed, 18, idx, 0);
+    if rng.chance(1, 6) {
+        // include graphs: the flag must reach the included files (and expansions inside them)
+        let dir = ctx.tmpdir.join(format!("c18-{}", idx));
+        let mut o = c04::profile_c05(&mut rng);
+        o.max_depth = 2;
+        o.misuse = false;
+        let prog = gen_pp::multi_file(&mut rng, o, 3);
+        let rendered = gen_pp::render_opt(&prog, &mut rng, true);
+        let cfg = Cfg { include_paths: vec![dir.clone()], ..Cfg::default() };
+        let setup = Setup { prog, rendered, dir: Some(dir.clone()), cfg: cfg.clone(), top: 0 };
+        setup.write_files();
+        let top = setup.top_path();
+        let all: String = setup.rendered.files.iter().map(|(n, t)| format!("// ==== {}\n{}", n, t)).collect();
+        ctx.count("include_graph_inputs", 1);
+        check_with(ctx, &all, &cfg, "include-graph", &|c: &Cfg| pp_file(&top, c));
+        let _ = std::fs::remove_dir_all(&dir);
+        return;
+    }
     let (src, cfg, kind) = if rng.chance(1, 4) {
         (gen_lex::soup(&mut rng), Cfg::default(), "soup")
     } else {
@@ -34,10 +52,16 @@ pub fn run_case(_env: &Env, ctx: &mut Ctx, idx: u64) {
 }
 
 pub fn check(ctx: &mut Ctx, src: &str, cfg: &Cfg, kind: &str) {
-    ctx.count("inputs", 1);
     let path = Path::new("c18.sv");
-    let plain = canon_pp(pp_str(src, path, &Cfg { strip_comments: false, ..cfg.clone() }));
-    let strip = canon_pp(pp_str(src, path, &Cfg { strip_comments: true, ..cfg.clone() }));
+    check_with(ctx, src, cfg, kind, &|c: &Cfg| pp_str(src, path, c));
+}
+
+type PpRun<'a> = &'a dyn Fn(&Cfg) -> Result<Result<(sv_parser::PreprocessedText, Defs), sv_parser::Error>, LibPanic>;
+
+pub fn check_with(ctx: &mut Ctx, src: &str, cfg: &Cfg, kind: &str, run: PpRun) {
+    ctx.count("inputs", 1);
+    let plain = canon_pp(run(&Cfg { strip_comments: false, ..cfg.clone() }));
+    let strip = canon_pp(run(&Cfg { strip_comments: true, ..cfg.clone() }));
     let witness = |d: &str| Obj::new().s("input", src).raw("config", &cfg.json()).s("kind", kind).s("detail", d).done();
     match (&plain, &strip) {
         (PpCanon::Panic(_), _) | (_, PpCanon::Panic(_)) => ctx.inconclusive("lib_panic"),
